@@ -201,6 +201,7 @@ namespace pika::execution::experimental {
                     op_state_head.load(std::memory_order_acquire));
                 do {
                     if (op_state->next == static_cast<void*>(this)) { return false; }
+                    PIKA_VERIF_POINT(110, this);
                 } while (!op_state_head.compare_exchange_weak(
                     op_state->next, static_cast<void*>(op_state), std::memory_order_acq_rel));
 
@@ -211,8 +212,10 @@ namespace pika::execution::experimental {
             {
                 // `this` is not an async_rw_mutex_operation_state_base*, but is a known value to
                 // signal that the queue has been processed
+                PIKA_VERIF_POINT(111, this);
                 auto* current = static_cast<async_rw_mutex_operation_state_base*>(
                     op_state_head.exchange(static_cast<void*>(this), std::memory_order_acq_rel));
+                PIKA_VERIF_POINT(112, this);
 
                 // We have now successfully acquired the head of the queue, and signaled to other
                 // threads that they can't add any more items to the queue. We can now process the
